@@ -97,15 +97,20 @@ impl RegexMatcher {
             RegexType::PosixExtended => Syntax::posix_extended(),
         };
 
-        let regex = Regex::with_options(
-            pattern,
-            if ignore_case {
-                RegexOptions::REGEX_OPTION_IGNORECASE
-            } else {
-                RegexOptions::REGEX_OPTION_NONE
-            },
-            syntax,
-        )?;
+        let options = if ignore_case {
+            RegexOptions::REGEX_OPTION_IGNORECASE
+        } else {
+            RegexOptions::REGEX_OPTION_NONE
+        };
+        // Report errors against the pattern as given.
+        Regex::with_options(pattern, options, syntax)?;
+        // The engine stops at the first alternative that matches, so anchor the
+        // end to make it try the others until the whole path is consumed.
+        let anchored = match regex_type {
+            RegexType::PosixExtended => format!("({pattern})$"),
+            _ => format!("\\({pattern}\\)$"),
+        };
+        let regex = Regex::with_options(&anchored, options, syntax)?;
         Ok(Self { regex })
     }
 }
